@@ -76,6 +76,19 @@ func runCheck(prop, tier string, seed int, t0 time.Time) int {
 			continue
 		}
 		if hasTag(f, prop) {
+			if only := os.Getenv("GOVC_ONLY_DIRS"); only != "" {
+				// mutant runs: verification is modular, so only the packages whose code changed need re-checking
+				d := pkgDirOfKey(k, mod)
+				hit := false
+				for _, o := range strings.Split(only, ",") {
+					if d == "./"+strings.TrimPrefix(o, "./") {
+						hit = true
+					}
+				}
+				if !hit {
+					continue
+				}
+			}
 			keys = append(keys, k)
 			if d := pkgDirOfKey(k, mod); d != "" {
 				dirs[d] = true
